@@ -88,7 +88,10 @@ def judge(res, scratch, recs, states, header, large=False):
     gaf = os.path.join(scratch, "in.gaf")
     tsv = os.path.join(scratch, "hap.tsv")
     outp = os.path.join(scratch, "out.gaf")
-    fw.write_text(gaf, "".join(r.line() + "\n" for r in recs))
+    text = "".join(r.line() + "\n" for r in recs)
+    if len(text) % 7 == 3:
+        text = text[:-1]  # some input files end without a newline
+    fw.write_text(gaf, text)
     fw.write_text(tsv, tsv_text(states, header))
     if os.path.exists(outp):
         os.remove(outp)
